@@ -573,6 +573,46 @@ def from_info_stage(ctx: Ctx) -> None:
             shutil.rmtree(d, ignore_errors=True)
 
 
+def config_file_ids_stage(ctx: Ctx) -> None:
+    """a worker process holds an application it received by pickle (the process registry then answers constructor calls); applications
+    whose id comes from their CONFIGURATION FILE are built next to it: each is its own object with its own id, queue and records"""
+    import pickle
+
+    from pynenc import Pynenc
+
+    Pynenc._clear_instances()
+    try:
+        default_app = pickle.loads(pickle.dumps(Pynenc()))        # registered in the process registry by __setstate__
+        made = {}
+        for tenant in ("tenant_y", "tenant_z", "pynenc2"):
+            path = os.path.join(ctx.tmp, f"{tenant}.yaml")
+            open(path, "w").write(f"app_id: {tenant}\n")
+            made[tenant] = Pynenc(config_filepath=path)
+        by_values = Pynenc(config_values={"app_id": "tenant_v"})
+        made["tenant_v"] = by_values
+        ctx.count()
+        ctx.distinct(("config-file-ids",))
+        rep = {"kind": "config-file-ids"}
+        for tenant, app in made.items():
+            if app.app_id != tenant or app is default_app:
+                ctx.report("constructor-returns-other-application", f"next to an unpickled application {default_app.app_id!r}, building the application whose "
+                                                                      f"{'configuration file' if tenant != 'tenant_v' else 'config values'} say app_id {tenant!r} returned the application "
+                                                                      f"{app.app_id!r}{' (the very same object)' if app is default_app else ''}", rep)
+                return
+        apps = [default_app, *made.values()]
+        if len({id(a) for a in apps}) != len(apps):
+            ctx.report("constructor-returns-other-application", "two applications with different ids are one object", rep)
+            return
+        for k, a in enumerate(apps):
+            for j in range(k + 1):
+                a.broker.route_invocation(f"m{k}-{j}")
+        counts = [a.broker.count_invocations() for a in apps]
+        if counts != [k + 1 for k in range(len(apps))]:
+            ctx.report("applications-share-a-queue", f"applications {[a.app_id for a in apps]} were given 1, 2, 3, … messages each; their queues hold {counts}", rep)
+    finally:
+        Pynenc._clear_instances()
+
+
 # ------------------------------------------------------------------------------------------------
 
 
@@ -602,6 +642,7 @@ def run(ctx: Ctx) -> None:
     t0 = time.time()
     scenario_stage(ctx)
     from_info_stage(ctx)
+    config_file_ids_stage(ctx)
     ctx.notes["t_scenarios_s"] = round(time.time() - t0, 1)
     ctx.assumptions += [
         "SHA-256 is not modelled: the 8 hex digits are a parameter of the model; 'no collision of the 32-bit prefix' is the explicit hypothesis ha ≠ hb of table_names_distinct / apps_disjoint / exact_purge_isolated",
